@@ -262,6 +262,14 @@ def kwsites_run(tier='quick'):
     return _pack('gvc.kwsites', [r], t0, samples=[dict(obligation='begin_keywords(<literal>) names a keyword set; macro names under "directive"', sites_checked=r['checked'])])
 
 
+def assumed_run(tier='quick', prop=None):
+    from . import analyses as A
+    t0 = time.time()
+    fns, table, comb = collect()
+    r = A.assumed_check(fns, prop)
+    return _pack('gvc.assumed', [r], t0, samples=[dict(obligation='pp productions whose accepted language is an assumed contract are the pinned text', productions=r['names'])])
+
+
 def pptotal_run(tier='quick'):
     from . import analyses as A
     t0 = time.time()
@@ -334,7 +342,7 @@ def run(prop, tier, seed, analyses=()):
     """entry point used by ./check through registry 'engines'"""
     rs = []
     for a in analyses:
-        rs.append(globals()[a + '_run'](tier))
+        rs.append(globals()[a + '_run'](tier, prop) if a == 'assumed' else globals()[a + '_run'](tier))
     # merge into one result
     t0 = time.time()
     m = result('gvc[' + ','.join(analyses) + ']', t0)
